@@ -9,13 +9,13 @@ Open Scope nat_scope.
    ast.parse(output), abstracted like the input *)
 Inductive observed := ObsNone | ObsInvalid | ObsStmts (ss : list stmt).
 
-(* splitlines view, ast view, observed outcome, and four facts established on the Python side:
-     py_aligned    no linebreak-only character up to the last rewritten import
-     py_disjoint   no rewritten import shares a physical line with other code
-     expect_region the generator meant this input to satisfy the theorem's hypotheses
+(* line list, ast view (statements with start/end positions), observed outcome, and three
+   facts established on the Python side:
+     py_aligned    the implementation's line list is the tokenizer's up to the last rewritten import
+     expect_region the generator meant this input to satisfy the theorem's hypothesis
      oracle_failed the direct oracle found the property violated on this input *)
 Definition mcase :=
-  (list (list frag) * list (stmt * nat * nat) * observed * (bool * bool * bool * bool))%type.
+  (list (list frag) * list (stmt * (nat * nat) * (nat * nat)) * observed * (bool * bool * bool))%type.
 
 Definition implb (a b : bool) : bool := negb a || b.
 
@@ -37,20 +37,19 @@ Definition migrate_case_ok (c : mcase) : bool :=
   let '(ls, body, obs, _) := c in
   obs_matches (rewrite_imports gen_mapping ls body) obs.
 
-Definition in_region (ls : list (list frag)) (body : list (stmt * nat * nat)) : bool :=
-  aligned ls body && line_disjoint ls.
+(* the hypothesis of rewrite_splice_correct: the ast view given is the one the lines have *)
+Definition in_region (ls : list (list frag)) (body : list (stmt * (nat * nat) * (nat * nat))) : bool :=
+  aligned ls body.
 
-(* the Python classifiers are at least as wide as the hypotheses of rewrite_splice_correct,
-   and the inputs meant to satisfy them do *)
+(* the Python classifier is at least as wide as the hypothesis, and the inputs meant to
+   satisfy it do *)
 Definition migrate_region_ok (c : mcase) : bool :=
-  let '(ls, body, _, (py_aligned, py_disjoint, expect_region, _)) := c in
-  implb (aligned ls body) py_aligned
-  && implb (in_region ls body) py_disjoint
-  && implb expect_region (in_region ls body).
+  let '(ls, body, _, (py_aligned, expect_region, _)) := c in
+  implb (in_region ls body) py_aligned && implb expect_region (in_region ls body).
 
 (* when the model's output does not read back as whole statements the oracle must have failed *)
 Definition migrate_damage_ok (c : mcase) : bool :=
-  let '(ls, body, _, (_, _, _, oracle_failed)) := c in
+  let '(ls, body, _, (_, _, oracle_failed)) := c in
   match rewrite_imports gen_mapping ls body with
   | None => true
   | Some o => implb (is_none (stmts_of o)) oracle_failed
